@@ -241,6 +241,25 @@ CLAIMED = {
         technique="contract-based deductive verification: loop-entry invariant + loop-body contract against the "
                   "callee contract of convert_to_object; cvc (clang AST -> z3/cvc5)",
     ),
+    'C19': dict(
+        category='proof',
+        text="The buffer object's operations are verified against a byte-array model, with frame conditions saying "
+             "that exactly the addressed bytes change: b_buffer_new (a view of exactly n bytes at the cdata's address "
+             "for an explicit n >= 0, 0 included; otherwise the pointed-to type's size / length * item size; only "
+             "pointers and arrays; never a negative length), minibuffer_new, mb_length, mb_item, mb_slice, "
+             "mb_ass_item, mb_ass_slice (equal length required, else ValueError and no write) and b_memmove (byte k "
+             "of dest becomes the old byte k of src for every k < n, for any overlap; negative n refused). "
+             "Counter-models are exhibited through a battery of buffer operations compared with a bytearray.",
+        design_ref='DESIGN.md section 4 C19',
+        note=COMMON_NOTE + "Assumed contracts: PyBytes_FromStringAndSize, the buffer protocol "
+             "(_fetch_as_buffer / _my_PyObject_GetContiguousBuffer), PyArg_ParseTupleAndKeywords keyed by the format "
+             "string; slice bounds reaching mb_slice / mb_ass_slice are those PySlice_GetIndicesEx computes. Scope of "
+             "mb_ass_slice: the right operand is not a cdata and does not overlap the destination. Not decided: "
+             "mb_subscript / mb_ass_subscript (index normalisation), mb_richcompare, direct_from_buffer "
+             "(from_buffer item counts), keep-alive and export locking.",
+        technique="contract-based deductive verification of the buffer object's operations against a byte-array "
+                  "model (frame conditions: exactly the addressed bytes change); cvc (clang AST -> z3/cvc5)",
+    ),
     'C23': dict(
         category='proof', engine='pyvc',
         text="_make_c_or_py_source is verified over a ghost file system with one externally visible state per I/O "
